@@ -92,4 +92,7 @@ NoOverread == pos <= (IF N < FrameLen THEN N ELSE FrameLen)
 \* termination: the number of inner calls is bounded by the bytes read plus the transient errors
 Bounded == Len(sched) <= FrameLen + 8 + MaxEintr
 LevelA == WindowCorrect /\ OkIffLongEnough /\ NoOverread /\ Bounded
+\* liveness: whatever the schedule of short reads and (finitely many) interruptions, the decode comes to an end
+FairSpec == Spec /\ WF_vars(Next)
+Terminates == <>(res # "run")
 =============================================================================
